@@ -17,7 +17,8 @@ def body(run):
                      # ONE request with 2 / 3 (thorough: 4) distinct ids in every order of own / foreign / never-issued
                      ("ServerCoreGen_batch2.cfg", None, None), ("ServerCoreGen_batch3.cfg", None, None)]
         + ([] if run.quick() else [("ServerCoreGen_batch4.cfg", None, None)]),
-        mc_cfgs=[("ServerCore_mc.cfg", "contract: session, id and owner invariants on 2 sessions + null caller")],
+        mc_cfgs=[(run.pick("ServerCore_mc_ids_q.cfg", "ServerCore_mc.cfg"),
+                  "contract: session, id and owner invariants on 2 sessions (thorough: + null caller)")],
         dev_cfgs=[("ServerCore_dev_subid-reuse.cfg", "deviation demo: subscription id reused while in use"),
                   ("ServerCore_dev_setmode-foreign-effective.cfg", "deviation demo: foreign SetMonitoringMode takes effect")],
         max_deaths=run.pick(8, 40))
